@@ -542,6 +542,31 @@ impl<'tcx> Ex<'tcx> {
                 }
             }
             ConstValue::ZeroSized => J::Obj(vec![("zst", J::Bool(true))]),
+            ConstValue::Scalar(Scalar::Ptr(ptr, _)) => {
+                // &[u8; N] byte-string constants (e.g. format_args! templates)
+                if let ty::Ref(_, inner, _) = ty.kind() {
+                    if let ty::Array(elem, n) = inner.kind() {
+                        if *elem == tcx.types.u8 {
+                            if let Some(n) = n.try_to_target_usize(tcx) {
+                                let (prov, off) = ptr.into_raw_parts();
+                                if let rustc_middle::mir::interpret::GlobalAlloc::Memory(a) = tcx.global_alloc(prov.alloc_id()) {
+                                    let start = off.bytes() as usize;
+                                    let end = start + n as usize;
+                                    let alloc = a.inner();
+                                    if end <= alloc.len() {
+                                        let b = alloc.inspect_with_uninit_and_ptr_outside_interpreter(start..end);
+                                        return J::Obj(vec![(
+                                            "bytes",
+                                            J::Arr(b.iter().map(|x| J::Int(*x as i128)).collect()),
+                                        )]);
+                                    }
+                                }
+                            }
+                        }
+                    }
+                }
+                J::Null
+            }
             _ => J::Null,
         }
     }
